@@ -490,6 +490,94 @@ class EncodeIntSpec(KernelSpec):
         return I("i64", int(toks[0]))
 
 
+class EncodeFloatSpec(KernelSpec):
+    """Codec::encode_float(c): the float WHERE-constant translated into the encoding domain of an integer column stored as
+    e: T with codec [Add(T, y)] / [ToI64(T)].  The kernels then compare `e as f64 OP encode_float(c)`.  Oracle: what the same
+    query computes on the same values stored as plain i64 (`(e + y) as f64 OP c`) - the answer must not depend on the encoding.
+    Two modes: 'grid' = constants k / 2^16 with |k| < 2^47 and |y| < 2^31, where every f64 operation involved is exact;
+    'full' = every non-NaN f64 constant and every offset the builder can emit."""
+    method = ("Codec", None, "encode_float")
+    diff_cases = 4
+    OPS = (("=", "Eq"), ("<", "Lt"), ("<=", "Le"), (">", "Gt"), (">=", "Ge"), ("<>", "Ne"))
+
+    def instantiations(self, tier):
+        ts = ("u8", "u32") if tier == "quick" else ("u8", "u16", "u32")
+        return [{"T": t, "kind": k, "mode": m, "nat": "codec_encode_float"} for t in ts for k in ("Add", "ToI64") for m in ("grid", "full")]
+
+    def sym_inputs(self, inst, shape):
+        t = inst["T"]
+        inp = {"e": sym(t, "e")}
+        pre = []
+        if inst["mode"] == "grid":
+            k = sym("i64", "k")
+            inp["k"] = k
+            pre += [k.v > -(1 << 47), k.v < (1 << 47)]
+            kf = z3.fpSignedToFP(z3.RNE(), k.v, z3.Float64())
+            c = z3.fpMul(z3.RNE(), kf, z3.FPVal(2.0 ** -16, z3.Float64()))
+            inp["c"] = I("f64", z3.fpToIEEEBV(c))
+        else:
+            c = sym("f64", "c")
+            inp["c"] = c
+            pre.append(z3.Not(z3.fpIsNaN(z3.fpBVToFP(c.v, z3.Float64()))))
+        if inst["kind"] == "Add":
+            inp["y"] = sym("i64", "y")
+            s = binop("AddWithOverflow", cast_int(inp["e"], "i64"), inp["y"])
+            pre.append(z3.Not(s.fields[1].z()))
+            pre.append(inp["y"].v != 0)
+            if inst["mode"] == "grid":
+                pre += [inp["y"].v > -(1 << 31), inp["y"].v < (1 << 31)]
+        return inp, pre
+
+    def explore(self, ctx, ex, fn, inst, shape, inp, pre):
+        T = Agg("enum", [], name="EncodingType", variant=inst["T"].upper())
+        op = Agg("enum", [T, inp["y"]], name="CodecOp", variant="Add") if inst["kind"] == "Add" else Agg("enum", [T], name="CodecOp", variant="ToI64")
+        fs = ctx.src().struct_fields("Codec")
+        vals = [VecObj([op]) if f == "ops" else Havoc("?", f) for f in fs]
+        st = ex.start(fn, [Ref(Cell(Agg("struct", vals, name="Codec"))), inp["c"]], {}, pc=pre)
+        return ex.explore(st)
+
+    def label(self, inst, name):
+        if inst["mode"] == "grid":
+            return f"decoded {name} constant <=> encoded {name} translated constant (constants on the 2^-16 grid, |c| < 2^31, |offset| < 2^31: exact f64 arithmetic)"
+        return f"decoded {name} constant <=> encoded {name} translated constant (all f64 constants and offsets)"
+
+    def post(self, inst, shape, inp, value, state=None):
+        from ..mirsym.values import cast_int_to_float
+        enc_c = value
+        e64 = cast_int(inp["e"], "i64")
+        dec = binop("Add", e64, inp["y"]) if inst["kind"] == "Add" else e64
+        dec_f = cast_int_to_float(dec, "f64")
+        e_f = cast_int_to_float(inp["e"], "f64")
+        conds = []
+        for name, opn in self.OPS:
+            conds.append((self.label(inst, name), binop("Eq", binop(opn, dec_f, inp["c"]), binop(opn, e_f, enc_c))))
+        return conds
+
+    def random_inputs(self, rng, inst, shape):
+        import struct
+        t = inst["T"]
+        e = I(t, rnd_int(rng, t))
+        inp = {"e": e}
+        y = 0
+        if inst["kind"] == "Add":
+            y = rng.choice([-5, 1000, -2**30, 2**20, 77])
+            inp["y"] = I("i64", y)
+        k = (y + e.v + rng.randint(-3, 3)) * 65536 + rng.choice([0, 1, 32768, 65535, -1])
+        c = k / 65536.0
+        if inst["mode"] == "grid":
+            inp["k"] = I("i64", k)
+        inp["c"] = I("f64", struct.unpack("<Q", struct.pack("<d", c))[0])
+        return inp
+
+    def native(self, inst, shape, inp):
+        if inp is None:
+            return ("codec_encode_float", [])
+        return ("codec_encode_float", [inst["kind"], inst["T"], inp["y"].v if inst["kind"] == "Add" else 0, inp["c"].v])
+
+    def parse_native(self, inst, shape, toks):
+        return I("f64", int(toks[0]))
+
+
 # ----------------------------------------------------------------------------------------------------
 # C04.c  array aggregation loops
 # ----------------------------------------------------------------------------------------------------
